@@ -94,7 +94,8 @@ def run(ctx):
     summ = oracle(ctx, LEVEL.get(ctx.tier, 0))
     ctx.add_summary(summ, "fault-injection oracle")
     if summ:
-        ctx.cov["exhaustive"] = bool(summ.get("exhaustive_offsets"))
+        # every offset of every sampled file is enumerated; the set of files is a sample
+        ctx.cov["exhaustive_offsets_per_sampled_file"] = bool(summ.get("exhaustive_offsets"))
         ctx.cov["files"] = summ.get("files", [])
     if ctx.tier == "thorough":
         ctx.cov["forbidden_vernacular"] = C.forbidden_vernacular()
